@@ -28,6 +28,9 @@ OBLIGATIONS = [
     "NanoVerif.Var.normalize_in_box",
     "NanoVerif.Var.normalize_inj",
     "NanoVerif.C18.config_masters_reproduced",
+    "NanoVerif.C18.normLoc_default",
+    "NanoVerif.C18.config_default_reproduced",
+    "NanoVerif.Cfg.defaultMaster_spec",
 ]
 DESIGN_REF = "DESIGN.md §5 C18"
 LEVEL_TEXT = ("Partial proof + exploration. Proved in Lean: (1) what is nanoemoji's own logic — each axis range is the hull of the masters' positions, attained at "
@@ -320,6 +323,52 @@ def suite_var_model(ctx, res, n):
             res.add_tie_break("fontTools normalizeValue vs Model normalizeValue", op, m, str(real))
 
 
+def suite_default_master(ctx, res, n):
+    """Tie for Model/ConfigValidate.lean `defaultMaster` (theorem `defaultMaster_spec`): the real `FontConfig.default()` on generated axes/masters —
+    the default master anywhere in the list, earlier masters that share SOME axis defaults with it, no default master at all, masters with a missing or a
+    doubled position (the assertion of `MasterConfig.pos`)."""
+    from fractions import Fraction as F
+    from nanoemoji import config as nconfig
+    from harness.common import fr
+
+    rng = ctx.rng
+    ops, reals = [], []
+    for _ in range(n):
+        k = rng.choice([1, 2, 2, 3])
+        tags = rng.sample(["wght", "wdth", "slnt", "opsz"], k)
+        defaults = {t: rng.choice([400, 100, 0, 14, 87.5]) for t in tags}
+        nm = rng.randint(1, 5)
+        masters = []
+        for i in range(nm):
+            pos = {t: (defaults[t] if rng.random() < 0.5 else defaults[t] + rng.choice([-50, 25, 300])) for t in tags}
+            masters.append(list(pos.items()))
+        kind = rng.choice(["default-somewhere", "default-somewhere", "none", "sparse", "double"])
+        if kind == "default-somewhere":
+            masters[rng.randrange(nm)] = [(t, defaults[t]) for t in tags]
+        elif kind == "sparse" and k > 1:
+            i = rng.randrange(nm)
+            masters[i] = masters[i][:-1]
+        elif kind == "double":
+            i = rng.randrange(nm)
+            masters[i] = masters[i] + [masters[i][0]]
+        axes = tuple(nconfig.Axis(t, t.upper(), defaults[t]) for t in tags)
+        mcs = tuple(nconfig.MasterConfig(f"M{i}", f"M{i}", f"m{i}.ufo", tuple(nconfig.AxisPosition(t, v) for t, v in m), ()) for i, m in enumerate(masters))
+        cfg = nconfig.FontConfig(axes=axes, masters=mcs)
+        try:
+            real = str(mcs.index(cfg.default()))
+        except AssertionError:
+            real = "err"
+        except ValueError:
+            real = "none"
+        ops.append({"op": "default-master", "axes": [[t, fr(F(defaults[t]))] for t in tags], "masters": [[[t, fr(F(v))] for t, v in m] for m in masters]})
+        reals.append((real, kind))
+    for op, (real, kind), m in zip(ops, reals, ctx.driver.run(ops)):
+        res.count(key=("default-master", stable_hash(op)), nontrivial=len(op["masters"]) > 1)
+        res.stat("default-master:" + ("index" if real.isdigit() else real))
+        if m.get("r") != real:
+            res.add_tie_break("FontConfig.default() vs Model defaultMaster", op, m.get("r"), real)
+
+
 def model_vs_font(ctx, res, r):
     """The model against the variable font that was really built: the regions the font stores (COLR VarStore, gvar) are among the model's supports
     for the declared masters, and the clip boxes the font gives at the intermediate location are what the model predicts from the static builds of
@@ -405,6 +454,7 @@ def run(ctx, res):
                 "CLI builds of 2-glyph, 2-shape sources in 2-3 masters (translated/scaled coordinates), 1 axis (wght) or 2 axes declared wght,wdth with "
                 "masters differing on one axis each; instantiated at each master and at the midpoint of the first two; every build non-trivial")
     suite_var_model(ctx, res, ctx.budget(60, 1500))
+    suite_default_master(ctx, res, ctx.budget(80, 1500))
     suite(ctx, res, ctx.budget(4, 40))
 
 
